@@ -17,10 +17,10 @@ use crate::sched::{self, PointRec};
 pub fn meta() -> Meta {
     Meta {
         level: "model_checking",
-        rule: "stateless exploration of ALL schedules with at most 2 preemptions (thorough: 3 for the two-thread scripts) of 12 scripts with 1..3 application threads on a fresh real manager per execution (64 nodes, apply cache 16, 3 variables): S1 two threads compute the same conjunction; S2 recomputation vs. gc with the dead result still in the unique table and apply cache; S3 a different operator on shared operands vs. gc; S4 drop vs. gc vs. clone+or; S5 one thread running the multi-threaded ite/and with split depth 2 (fork/join through the hook spawns controlled threads); S6 gc vs. gc vs. xor; S8 add_vars (exclusive lock) vs. and; S9 two allocating threads on a 12-node manager; S10 ZBDD not (tautology chain) vs. gc; S11 quantification vs. gc vs. quantification; S12 compute-drop-recompute vs. gc; S13 ite / S14 or+and on operands (x0 ? x1 : x2), (x0 ? !x2 : x2) with split depth 2 (forked joins) on a store with room for the operands plus 0..3 nodes (OutOfMemory inside one branch of a join while the sibling succeeds; failing operations are allowed, the reference counts and the node count after teardown must still be exact); kinds bdd, bcdd, zbdd; MTBDD<I64>: M1 add with a fresh constant, constant dropped, another fresh constant (terminal slot recycling) vs. gc; M2 two threads creating the same new terminal vs. gc. Scheduling points: every level / store-state / manager-RwLock / terminal / cache-bucket lock acquisition (blocking ones with a readiness predicate, so deadlock = no enabled thread is detected), cache try-locks, gc try-lock and phases, handle clone/drop, fork/join. Oracle per execution: every result has the model's table and equals the handle obtained by recomputing sequentially in the same manager afterwards; no panic / deadlock; full audit with exact reference counts; after dropping everything + gc the initial node count. states = distinct (schedule outcome signatures), transitions = scheduling decisions taken, executions = schedules run.",
+        rule: "stateless exploration of ALL schedules with at most 2 preemptions (thorough: 3 for the two-thread scripts) of 14 scripts with 1..3 application threads on a fresh real manager per execution (64 nodes, apply cache 16, 3 variables): S1 two threads compute the same conjunction; S2 recomputation vs. gc with the dead result still in the unique table and apply cache; S3 a different operator on shared operands vs. gc; S4 drop vs. gc vs. clone+or; S5 one thread running the multi-threaded ite/and with split depth 2 (fork/join through the hook spawns controlled threads); S6 gc vs. gc vs. xor; S8 add_vars (exclusive lock) vs. and; S9 two allocating threads on a 12-node manager; S10 ZBDD not (tautology chain) vs. gc; S11 quantification vs. gc vs. quantification; S12 compute-drop-recompute vs. gc; S13 ite / S14 or+and on operands (x0 ? x1 : x2), (x0 ? !x2 : x2) with split depth 2 (forked joins) on a store with room for the operands plus 0..3 nodes (OutOfMemory inside one branch of a join while the sibling succeeds; failing operations are allowed, the reference counts and the node count after teardown must still be exact); G1 the background collector as a controlled thread on a 160-node store (marks 90/95) that holds 72 live and 18 dead nodes: the application thread builds A, builds and drops B, builds C and D, crossing the high water mark up to twice (all schedules with <= 2 preemptions, about 50 000 per kind, split into 16 disjoint parts of the schedule tree); kinds bdd, bcdd, zbdd; MTBDD<I64>: M1 add with a fresh constant, constant dropped, another fresh constant (terminal slot recycling) vs. gc; M2 two threads creating the same new terminal vs. gc. Scheduling points: every level / store-state / manager-RwLock / terminal / cache-bucket lock acquisition (blocking ones with a readiness predicate, so deadlock = no enabled thread is detected), cache try-locks, gc try-lock and phases, handle clone/drop, fork/join. Oracle per execution: every result has the model's table and equals the handle obtained by recomputing sequentially in the same manager afterwards; no panic / deadlock; full audit with exact reference counts; after dropping everything + gc the initial node count. states = distinct (schedule outcome signatures), transitions = scheduling decisions taken, executions = schedules run.",
         assumptions: vec![
             "only sequentially consistent interleavings at the instrumented points are explored; Relaxed/Acquire/Release reorderings of the atomics are not modelled".into(),
-            "the background GC thread's condvar wake-up is not scheduled (node stores < 100 disable it); its effect, gc() under a shared manager lock at any point, is (S2-S4, S6, S10, S11)".into(),
+            "the background collector thread is a controlled thread in script G1 only (adopted through the daemon hook; its wait for the condition variable is modelled by a sticky notification flag, see DESIGN 8.8); in the other scripts the node stores (< 100 nodes) disable it and its effect, gc() under a shared manager lock at any point, is scheduled explicitly (S2-S4, S6, S10, S11)".into(),
             "rayon's work stealing is replaced by forking a controlled thread per join (same set of behaviours: a || b then both results)".into(),
             "pointer-based backend not instrumented (covered differentially by C20); free-running 12..20 variable stress is sampling and therefore not part of the verdict".into(),
         ],
@@ -51,6 +51,13 @@ pub fn shards(tier: &str) -> Vec<String> {
         for extra in 0..4 {
             v.push(format!("{k}:s13c{extra}:b2"));
             v.push(format!("{k}:s14c{extra}:b2"));
+        }
+    }
+    // G1: the background collector (adopted as a controlled thread): the node count crosses the high
+    // water mark twice while the application thread keeps allocating; 16 parts of the schedule tree each
+    for k in ["bdd", "bcdd", "zbdd"] {
+        for part in 0..16 {
+            v.push(format!("{k}:g1p{part}:b2"));
         }
     }
     for s in ["m1", "m2"] {
@@ -269,6 +276,9 @@ fn execute<K: QOps>(ctx: &mut Ctx, script: &str, prefix: &[usize]) -> Outcome
 where
     MRefOf<K>: Send + Sync,
 {
+    if script.starts_with("g1") {
+        return execute_bg::<K>(prefix);
+    }
     let n = 3u32;
     let s13_extra: Option<usize> = script.strip_prefix("s13c").or(script.strip_prefix("s14c")).map(|x| x.parse().unwrap());
     let script = if script.starts_with("s13c") { "s13" } else if script.starts_with("s14c") { "s14" } else { script };
@@ -554,7 +564,11 @@ where
         let mut nviol = 0usize;
         let mut maxpre = 0usize;
         let ctx_cell = std::cell::RefCell::new(ctx);
-        let (count, maxp, capped) = sched::explore(bound, cap, |prefix| {
+        let (part, parts) = match script.strip_prefix("g1p") {
+            Some(p) => (p.parse::<usize>().unwrap(), 16),
+            None => (0, 1),
+        };
+        let (count, maxp, capped) = sched::explore_part(bound, cap, part, parts, |prefix| {
             let mut ctx = ctx_cell.borrow_mut();
             let out = execute::<K>(&mut ctx, &script, prefix);
             ctx.count("evaluations", 1);
@@ -588,4 +602,166 @@ where
         ctx.sample(|| json!({"kind": K::NAME, "script": script, "preemption_bound": bound, "schedules": count, "max_scheduling_points": maxp}));
         let _ = nviol;
     });
+}
+
+// ---- background collector ------------------------------------------------------------------
+
+/// pseudo-random 6-variable tables (fixed)
+fn bg_table(i: u64) -> Tab {
+    let mut x = i.wrapping_mul(0x9e3779b97f4a7c15) ^ 0xd1b54a32d192ed03;
+    x ^= x >> 29;
+    x = x.wrapping_mul(0xbf58476d1ce4e5b9);
+    x ^= x >> 32;
+    x
+}
+
+/// Script G1 on a manager with 160 node slots (background collection: low water mark 90, high water
+/// mark 95 nodes): before the controlled part the store holds 72 live and 18 dead nodes; the
+/// application thread then builds A, builds B, drops B, builds C and D. The collector thread is a
+/// controlled thread that becomes enabled whenever the store notified it.
+fn execute_bg<K: QOps>(prefix: &[usize]) -> Outcome
+where
+    MRefOf<K>: Send + Sync,
+{
+    let n = 6u32;
+    crate::proto::throttle_threads();
+    sched::adopt_daemons(true);
+    let mref: MRefOf<K> = K::new_manager(160, 64, 1);
+    sched::finish_adoption(1);
+    mref.with_manager_exclusive(|m| {
+        m.add_vars(n);
+    });
+    let count = |m: &MRefOf<K>| m.with_manager_shared(|m| m.num_inner_nodes());
+    let base = count(&mref);
+    // fill up to exactly `target` nodes with functions from a fixed candidate sequence
+    let fill = |target: usize, seed: u64, keep: &mut Vec<(Tab, K::F)>| {
+        let mut i = 0u64;
+        while count(&mref) < base + target {
+            let t = if i < 40 {
+                bg_table(seed + i)
+            } else {
+                // small steps: functions of two variables
+                let (a, b) = (((i - 40) % 6) as u32, (((i - 40) / 6) % 6) as u32);
+                let (ta, tb) = (model::var_tab(a, n), model::var_tab(b, n));
+                match (i - 40) / 36 {
+                    0 => ta & tb,
+                    1 => ta | tb,
+                    2 => ta ^ tb,
+                    3 => ta & !tb & model::full(n),
+                    _ => panic!("harness: cannot reach the node count target"),
+                }
+            };
+            i += 1;
+            let before = count(&mref);
+            let f = K::build(&mref, t).expect("harness: setup allocation");
+            if count(&mref) > base + target {
+                drop(f);
+                mref.with_manager_shared(|m| m.gc());
+                assert_eq!(count(&mref), before, "harness: setup gc");
+                continue;
+            }
+            keep.push((t, f));
+        }
+    };
+    let mut live: Vec<(Tab, K::F)> = vec![];
+    fill(72, 1000, &mut live);
+    let mut dead: Vec<(Tab, K::F)> = vec![];
+    fill(90, 2000, &mut dead);
+    drop(dead); // 18 dead nodes stay in the unique tables
+    let tabs: [Tab; 4] = [bg_table(1), bg_table(2), bg_table(3), bg_table(4)];
+    let results: Vec<Slot<AllocResult<K::F>>> = (0..4).map(|_| Mutex::new(None)).collect();
+    let r = &results;
+    let mr = &mref;
+    let gc0 = mref.with_manager_shared(|m| m.gc_count());
+    let nodes0 = count(&mref);
+    let bodies: Vec<Box<dyn FnOnce() + Send + '_>> = vec![Box::new(move || {
+        *r[0].lock().unwrap() = Some(K::build(mr, tabs[0]));
+        let b = K::build(mr, tabs[1]);
+        drop(b);
+        *r[2].lock().unwrap() = Some(K::build(mr, tabs[2]));
+        *r[3].lock().unwrap() = Some(K::build(mr, tabs[3]));
+    })];
+    let kind = K::NAME;
+    let pfx = prefix.to_vec();
+    let exec = sched::run_reporting_deadlock(prefix, bodies, |d, tr| {
+        let v = json!({"attrs": {"kind": kind, "script": "g1", "class": "deadlock"},
+            "case": {"kind": kind, "script": "g1", "schedule_prefix": pfx, "choices": sched::choices(tr)},
+            "msg": format!("{kind} script g1: deadlock: {d}"), "group": 0, "shard": format!("{kind}:g1"), "property": "C07", "tier": "quick"});
+        println!("V {v}");
+    });
+    let mut errors: Vec<(String, String)> = vec![];
+    for p in &exec.panics {
+        errors.push(("panic".into(), p.clone()));
+    }
+    if exec.overrun {
+        errors.push(("replay_divergence".into(), "the schedule prefix could not be replayed (fewer enabled threads than recorded)".into()));
+    }
+    let mut sig = String::new();
+    let mut got: Vec<K::F> = vec![];
+    for (i, slot) in results.iter().enumerate() {
+        if i == 1 {
+            continue;
+        }
+        match slot.lock().unwrap().take() {
+            None => {
+                if exec.panics.is_empty() {
+                    errors.push(("no_result".into(), format!("result {i} was never produced")));
+                }
+            }
+            Some(Err(_)) => errors.push(("unexpected_oom".into(), format!("result {i}: OutOfMemory although at most 140 of 160 node slots are ever needed"))),
+            Some(Ok(h)) => {
+                match K::table(&h) {
+                    Ok(t) if t == tabs[i] => {}
+                    other => errors.push(("wrong_result".into(), format!("result {i} denotes {other:x?}, expected {:#x}", tabs[i]))),
+                }
+                got.push(h);
+            }
+        }
+    }
+    for (t, f) in &live {
+        match K::table(f) {
+            Ok(x) if x == *t => {}
+            other => errors.push(("live_function_changed".into(), format!("a function that was alive during the whole execution denotes {other:x?}, expected {t:#x}"))),
+        }
+    }
+    // number of collector runs = number of times the daemon was scheduled from its wait
+    let runs = exec.trace.iter().filter(|p| p.class == 200).count();
+    let gc1 = mref.with_manager_shared(|m| m.gc_count());
+    sig.push_str(&format!("collector_waits={runs};collections={};nodes_before={nodes0};nodes_after={};", gc1 - gc0, count(&mref)));
+    {
+        let mut refs: Vec<&K::F> = live.iter().map(|x| &x.1).collect();
+        refs.extend(got.iter());
+        let info = K::audit(&mref, &refs, true);
+        for e in info.errors.iter().take(2) {
+            errors.push(("audit".into(), e.clone()));
+        }
+    }
+    // the very same functions built again must be the same handles
+    if errors.is_empty() && got.len() == 3 {
+        for (k, i) in [0usize, 2, 3].iter().enumerate() {
+            if let Ok(again) = K::build(&mref, tabs[*i]) {
+                if again != got[k] {
+                    errors.push(("differs_from_sequential".into(), format!("result {i} != the handle obtained by building the same function again afterwards")));
+                }
+            }
+        }
+    }
+    drop(got);
+    drop(live);
+    // the collector may be running concurrently now (it has been released); gc() is then a no-op, so retry
+    let mut left = usize::MAX;
+    for _ in 0..200 {
+        left = mref.with_manager_shared(|m| {
+            m.gc();
+            m.num_inner_nodes()
+        });
+        if left == base {
+            break;
+        }
+        std::thread::sleep(std::time::Duration::from_millis(1));
+    }
+    if left != base && errors.is_empty() {
+        errors.push(("leak".into(), format!("{left} inner nodes remain after dropping everything and gc (initial {base})")));
+    }
+    Outcome { errors, signature: sig, trace: exec.trace }
 }
